@@ -484,3 +484,59 @@ fn c10_b_shape_toplevel_list() {
     assert!(eval_keys(&[], &keys[..n]));
 }
 
+
+// ---------------------------------------------------------------------------------------
+// B-B4: case iteration on the real (unextracted, generic) Switch::actions / SwitchActions::next:
+// three cases `(a) act0 bf0`, `(b) act1 bf1`, `(c) act2 bf2` with symbolic break/fallthrough and
+// symbolic key state.  "Cases are tried top to bottom, break stops and fallthrough continues,
+// and every firing case's action is performed."
+// ---------------------------------------------------------------------------------------
+static CASE_ACTS: [Action<'static, core::convert::Infallible>; 3] =
+    [Action::KeyCode(KeyCode::X), Action::KeyCode(KeyCode::Y), Action::KeyCode(KeyCode::Z)];
+
+fn any_bf() -> BreakOrFallthrough {
+    if kani::any() {
+        Break
+    } else {
+        Fallthrough
+    }
+}
+
+#[kani::proof]
+#[kani::unwind(4)]
+fn c10_b_case_iteration() {
+    // whether case i fires is chosen freely: a firing case has the empty condition (true), a
+    // non-firing one tests a key while no key is active (condition evaluation itself is covered
+    // by the evaluator proof and the leaf harnesses; this harness is about the iteration).
+    // Two cases: three cases did not finish in 10 min.
+    let v: [bool; 2] = [kani::any(), kani::any()];
+    let never = [OpCode::new_key(KeyCode::A)];
+    let always: [OpCode; 0] = [];
+    let cond = |f: bool| -> &[OpCode] { if f { &always } else { &never } };
+    let bf = [any_bf(), any_bf()];
+    let cases: [Case<'_, core::convert::Infallible>; 2] = [(cond(v[0]), &CASE_ACTS[0], bf[0]), (cond(v[1]), &CASE_ACTS[1], bf[1])];
+    let sw = Switch { cases: &cases };
+    let mut it = sw.actions(no_keys(), no_coords(), no_hk(), no_hc(), no_layers(), 0);
+    // oracle: top to bottom; break stops; fallthrough continues
+    let first_fires = v[0];
+    let second_fires = v[1] && !(v[0] && bf[0] == Break);
+    let r1 = it.next();
+    let r2 = it.next();
+    let r3 = it.next();
+    let is = |r: Option<&Action<'_, core::convert::Infallible>>, k: usize| match r {
+        Some(a) => core::ptr::eq(a, &CASE_ACTS[k]),
+        None => false,
+    };
+    if first_fires && second_fires {
+        assert!(is(r1, 0) && is(r2, 1) && r3.is_none());
+    } else if first_fires {
+        assert!(is(r1, 0) && r2.is_none() && r3.is_none());
+    } else if second_fires {
+        assert!(is(r1, 1) && r2.is_none() && r3.is_none());
+    } else {
+        assert!(r1.is_none() && r2.is_none() && r3.is_none());
+    }
+    kani::cover!(first_fires && second_fires, "fallthrough into a second firing case");
+    kani::cover!(v[0] && v[1] && !second_fires, "break hides a later true case");
+    kani::cover!(!v[0] && second_fires, "a non-firing case before a firing one");
+}
